@@ -621,5 +621,95 @@ func FaultSweeps(run *harness.Run, o FaultOptions) {
 		run.Seen("modes", string(mode))
 		x.flushSweep(fe, key)
 		x.recoverySweep(fe, key)
+		// switchSweep (below) is not run: its first trial did not finish inside the quick tier's
+		// watchdog (a start on the cluster double scans 16384 slot tags per StartPoint) and there was
+		// no time left to bound it; seed C17-N, which it was written for, stays open (DESIGN §8)
+		_ = x.switchSweep
 	})
+}
+
+// switchSweep: (3) over the requests of a start under the OTHER recovery format (the replay mode
+// was changed between two starts: start-up bookkeeping seeds the other namespace and repoints the
+// index) on a cluster of one primary, lost-reply flavour: request k is executed and its connection
+// closed before the reply; the start fails or not as the tool sees fit, the start is attempted
+// again (the syncer restarts), and the position that start finds must not be smaller than the one
+// an unfaulted switch finds on the same state.
+func (x *explorer) switchSweep(fe *fenv, key string) {
+	run := x.run
+	ctx := context.Background()
+	l0, _, why := fe.gatedRun(nil)
+	if l0 == nil {
+		run.Inconclusive("%s: switch sweep: uninterrupted run: %s", key, why)
+		return
+	}
+	other := config.ReplayModeSync
+	state := l0.StateAt(l0.NReqs)
+	open := func(tgt Target) (*syncer.RedisOutput, error) { return fe.D.Open(tgt, fe.C, other) }
+	// the unfaulted switch: how many requests the start-up bookkeeping issues, and what it finds
+	tgt := NewSinglePrimaryCluster(fe.targetOptions())
+	tgt.Replay(reservedWrites(state))
+	seq0 := tgt.Seq()
+	out, err := open(tgt)
+	nOpen := tgt.Seq() - seq0
+	if err != nil {
+		tgt.Close()
+		run.Count("switch_sweeps_refused_by_the_tool", 1)
+		return
+	}
+	sp0, err := out.StartPoint(ctx, fe.IDs)
+	tgt.Close()
+	if err != nil {
+		run.Inconclusive("%s: switch sweep: unfaulted StartPoint: %v", key, err)
+		return
+	}
+	run.Count("switch_requests_enumerated", nOpen)
+	ctxs := fe.C.Ctx(fe.C.Mode, true) + "|cluster-of-one-primary"
+	for k := int64(1); k <= nOpen; k++ {
+		tgt := NewSinglePrimaryCluster(fe.targetOptions())
+		tgt.Replay(reservedWrites(state))
+		seq0 := tgt.Seq()
+		var fired atomic.Bool
+		what := ""
+		tgt.SetFault(nil, func(q *fakeredis.Req) bool {
+			if q.Seq == seq0+k && q.Cmd != "CLUSTER" && q.Cmd != "COMMAND" && fired.CompareAndSwap(false, true) {
+				what = q.Cmd
+				if len(q.Args) > 0 {
+					what += " <" + ClassOf(q.Args[0]).String() + ">"
+				}
+				return true
+			}
+			return false
+		})
+		_, err1 := open(tgt)
+		tgt.SetFault(nil, nil)
+		if !fired.Load() {
+			tgt.Close()
+			run.Count("fault_request_not_reached", 1)
+			continue
+		}
+		out2, err2 := open(tgt) // the restarted syncer
+		var sp2 syncer.StartPoint
+		var err3 error
+		if err2 == nil {
+			sp2, err3 = out2.StartPoint(ctx, fe.IDs)
+		}
+		reqs := reqTail(tgt, seq0)
+		tgt.Close()
+		run.Eval(1)
+		run.Count("switch_faults_run", 1)
+		run.Distinct(fmt.Sprintf("%s|switch-fault|%s|drop|first-start-failed=%v", ctxs, what, err1 != nil))
+		path := fmt.Sprintf("start under replay mode %s on a state written under %s (cluster of one primary): request %d of %d of the start-up bookkeeping (%s) executed, connection closed instead of a reply; start attempted again", other, fe.C.Mode, k, nOpen, what)
+		wit := map[string]any{"case": fe.C.String(), "unfaulted_switch_finds": fmt.Sprintf("%+v", sp0), "first_attempt_error": fmt.Sprint(err1), "second_attempt_error": fmt.Sprint(err2),
+			"second_attempt_finds": fmt.Sprintf("%+v err=%v", sp2, err3), "requests_of_both_attempts": reqs}
+		switch {
+		case err2 != nil || err3 != nil:
+			// a start that refuses is fail-safe (counted); it must not refuse for ever, but that is
+			// not decided here
+			run.Count("switch_second_attempt_refused", 1)
+		case sp2.RunId != sp0.RunId || sp2.Offset < sp0.Offset:
+			run.Violation("fault|switch|position-lost-after-lost-reply|"+ctxs, key,
+				fmt.Sprintf("%s: the second attempt finds %+v, an unfaulted switch on the same state finds %+v", path, sp2, sp0), wit)
+			return
+		}
+	}
 }
